@@ -30,9 +30,45 @@ pub fn install_link_hook() {
     })));
 }
 
+/// a command running on its own thread, parked inside a wait loop of start_election
+pub struct Co { pub resume: std::sync::mpsc::Sender<()>, pub events: std::sync::mpsc::Receiver<CoEv>, pub handle: Option<std::thread::JoinHandle<()>> }
+pub enum CoEv { Parked(String), Done(String) }
+
+thread_local! {
+    /// set on worker threads: where to report a yield point and where to wait for the go-ahead
+    pub static CO_CTX: RefCell<Option<(std::sync::mpsc::Sender<CoEv>, std::sync::mpsc::Receiver<()>)>> = RefCell::new(None);
+}
+
+pub fn install_yield_hook() {
+    nundb::verif::set_yield_hook(Some(Arc::new(|site: &'static str| {
+        if !site.starts_with("start_election:") { return; }
+        CO_CTX.with(|c| {
+            if let Some((tx, rx)) = c.borrow().as_ref() {
+                let _ = tx.send(CoEv::Parked(site.to_string()));
+                let _ = rx.recv();
+            }
+        });
+    })));
+}
+
+pub fn may_elect(cmd: &str, is_primary: bool) -> bool {
+    let mut w = cmd.split(' ');
+    match w.next().unwrap_or("") {
+        "join" | "leave" => true,
+        // on any other node set-primary only records who the connection belongs to (in the session itself)
+        "set-primary" => is_primary,
+        "election" => w.next() == Some("candidate"),
+        "debug" => w.next() == Some("force-election"),
+        _ => false,
+    }
+}
+
 pub struct Node {
     pub name: String,
     pub pid: u128,
+    pub co_mode: bool,
+    pub cos: BTreeMap<usize, Co>,
+    pub next_co: usize,
     pub sup_fut: Option<std::pin::Pin<Box<dyn std::future::Future<Output = ()>>>>,
     pub sup_in: Option<Sender<String>>,
     pub links: Vec<LinkOut>,
@@ -350,6 +386,44 @@ impl Node {
         }
     }
 
+    /// wait for the next event of coroutine `id`: parked at a yield point, or finished
+    fn co_wait(&mut self, id: usize) -> Vec<String> {
+        let ev = self.cos.get(&id).and_then(|c| c.events.recv().ok());
+        match ev {
+            Some(CoEv::Parked(site)) => vec![format!("Y parked {} {}", id, site)],
+            Some(CoEv::Done(resp)) => {
+                if let Some(mut c) = self.cos.remove(&id) { if let Some(h) = c.handle.take() { let _ = h.join(); } }
+                vec![format!("Y done {}", id), resp]
+            }
+            None => { self.cos.remove(&id); vec![format!("Y done {}", id), "R PANIC coroutine died".to_string()] }
+        }
+    }
+
+    /// run `f` (a command that may hold an election) on its own thread up to its first yield point
+    pub fn co_start(&mut self, f: Box<dyn FnOnce(Arc<Databases>) -> String + Send>) -> Vec<String> {
+        let id = self.next_co; self.next_co += 1;
+        let (etx, erx) = std::sync::mpsc::channel::<CoEv>();
+        let (rtx, rrx) = std::sync::mpsc::channel::<()>();
+        let dbs = self.dbs.clone(); let dir = self.dir.clone();
+        let etx2 = etx.clone();
+        let handle = std::thread::spawn(move || {
+            nundb::verif::set_data_dir(Some(dir));
+            CO_CTX.with(|c| *c.borrow_mut() = Some((etx2, rrx)));
+            let r = std::panic::catch_unwind(std::panic::AssertUnwindSafe(|| f(dbs)));
+            let resp = match r { Ok(s) => s, Err(_) => format!("R PANIC {}", LAST_PANIC.with(|p| p.borrow_mut().take()).unwrap_or_default()) };
+            let _ = etx.send(CoEv::Done(resp));
+        });
+        self.cos.insert(id, Co { resume: rtx, events: erx, handle: Some(handle) });
+        self.co_wait(id)
+    }
+
+    pub fn co_resume(&mut self, id: usize) -> Vec<String> {
+        match self.cos.get(&id) {
+            Some(c) => { let _ = c.resume.send(()); self.co_wait(id) }
+            None => vec!["E no-such-coroutine".to_string()],
+        }
+    }
+
     pub fn exec(&mut self, sid: usize, cmd: &str) -> String {
         let dbs = self.dbs.clone();
         let sess = self.sessions.get_mut(&sid).unwrap();
@@ -381,9 +455,10 @@ impl World {
         let name = opt_of(role, "name").unwrap_or("n1").to_string();
         let pid: u128 = opt_of(role, "pid").and_then(|p| p.parse().ok()).unwrap_or(1);
         let (dbs, repl_rx, sup_rx) = make_dbs_named(&dir, role_of(role), true, &name, pid);
-        let mut node = Node { name, pid, sup_fut: None, sup_in: None, links: vec![], repl_fut: None, repl_in: None, dbs, repl_rx, sup_rx, sessions: BTreeMap::new(), dir, notices: HashMap::new(), last_dump: vec![] };
+        let mut node = Node { name, pid, co_mode: role.split(',').any(|o| o == "co"), cos: BTreeMap::new(), next_co: 0, sup_fut: None, sup_in: None, links: vec![], repl_fut: None, repl_in: None, dbs, repl_rx, sup_rx, sessions: BTreeMap::new(), dir, notices: HashMap::new(), last_dump: vec![] };
         if role.split(',').any(|o| o == "pump") { node.start_loop(); }
         if role.split(',').any(|o| o == "sup") { node.start_sup(); }
+        if node.co_mode { install_yield_hook(); }
         self.node = Some(node);
     }
 
@@ -405,7 +480,7 @@ impl World {
             let r = std::panic::catch_unwind(std::panic::AssertUnwindSafe(|| {
                 let (dbs, repl_rx, sup_rx) = make_dbs(&dir, ClusterRole::Primary, false);
                 Databases::load_all_dbs(&dbs);
-                let t = Node { name: "n1".to_string(), pid: 1, sup_fut: None, sup_in: None, links: vec![], repl_fut: None, repl_in: None, dbs, repl_rx, sup_rx, sessions: BTreeMap::new(), dir: dir.clone(), notices: HashMap::new(), last_dump: vec![] };
+                let t = Node { name: "n1".to_string(), pid: 1, co_mode: false, cos: BTreeMap::new(), next_co: 0, sup_fut: None, sup_in: None, links: vec![], repl_fut: None, repl_in: None, dbs, repl_rx, sup_rx, sessions: BTreeMap::new(), dir: dir.clone(), notices: HashMap::new(), last_dump: vec![] };
                 t.dump_meta()
             }));
             if let Some(n) = self.node.as_ref() { nundb::verif::set_data_dir(Some(n.dir.clone())); }
@@ -429,7 +504,26 @@ impl World {
             "C" => {
                 let sid: usize = match a1.parse() { Ok(s) => s, Err(_) => return vec!["E bad-op".into()] };
                 if !n.sessions.contains_key(&sid) { let (client, rx) = Client::new_empty_and_receiver(); n.sessions.insert(sid, Sess { client, rx }); }
-                let mut out = vec![n.exec(sid, &unesc(a2))];
+                let cmdline = unesc(a2);
+                let mut out = if n.co_mode && may_elect(&cmdline, n.dbs.is_primary()) {
+                    // the command may block in start_election: it runs on its own thread with a stand-in client carrying the session's credentials
+                    let sess = n.sessions.get(&sid).unwrap();
+                    let auth = sess.client.is_admin_auth();
+                    let member = { sess.client.cluster_member.lock().unwrap().as_ref().map(|m| (m.name.clone(), m.role)) };
+                    n.co_start(Box::new(move |dbs: Arc<Databases>| {
+                        let (mut c, _rx) = Client::new_empty_and_receiver();
+                        c.auth.store(auth, Ordering::Relaxed);
+                        if let Some((name, role)) = member { *c.cluster_member.lock().unwrap() = Some(ClusterMember { name, role, sender: None }); }
+                        Node::resp_str(&process_request(&cmdline, &dbs, &mut c))
+                    }))
+                } else { vec![n.exec(sid, &cmdline)] };
+                out.extend(n.drain_all(None));
+                out.extend(n.dump_delta());
+                out
+            }
+            "RESUME" => {
+                let id: usize = match a1.parse() { Ok(s) => s, Err(_) => return vec!["E bad-op".into()] };
+                let mut out = n.co_resume(id);
                 out.extend(n.drain_all(None));
                 out.extend(n.dump_delta());
                 out
@@ -455,6 +549,30 @@ impl World {
             }
             "CLOSE" => {
                 let sid: usize = match a1.parse() { Ok(s) => s, Err(_) => return vec!["E bad-op".into()] };
+                let member_primary = n.sessions.get(&sid).map(|s| s.client.is_primary()).unwrap_or(false);
+                if n.co_mode && member_primary {
+                    // the end-of-stream sequence of a connection from the primary runs `leave`, which holds an election: own thread
+                    let sess = n.sessions.remove(&sid).unwrap();
+                    struct SendSess(Sess);
+                    unsafe impl Send for SendSess {}
+                    let boxed = SendSess(sess);
+                    let mut out = n.co_start(Box::new(move |dbs: Arc<Databases>| {
+                        let mut b = boxed;
+                        process_request("unwatch-all", &dbs, &mut b.0.client);
+                        let member = { b.0.client.cluster_member.lock().unwrap().as_ref().map(|m| (m.name.clone(), m.role)) };
+                        if let Some((name, role)) = member {
+                            let (mut fake, _rx) = Client::new_empty_and_receiver();
+                            fake.auth.store(true, Ordering::Relaxed);
+                            let msg = if role == ClusterRole::Primary { format!("leave {}", name) } else { format!("replicate-leave {}", name) };
+                            process_request(&msg, &dbs, &mut fake);
+                        }
+                        b.0.client.left(&dbs);
+                        "R ok".to_string()
+                    }));
+                    out.extend(n.drain_all(None));
+                    out.extend(n.dump_delta());
+                    return out;
+                }
                 if let Some(mut sess) = n.sessions.remove(&sid) {
                     // the transports' disconnect sequence (tcp_ops::handle_client / ws_ops::on_close)
                     let dbs = n.dbs.clone();
@@ -585,8 +703,12 @@ impl World {
                 // start_inital_election without its one-second sleep
                 nundb::verif::set_data_dir(Some(n.dir.clone()));
                 let dbs = n.dbs.clone();
-                let r = std::panic::catch_unwind(std::panic::AssertUnwindSafe(|| { if dbs.is_eligible() { nundb::election_ops::start_election(&dbs); } }));
-                let mut out = vec![if r.is_ok() { "R ok".to_string() } else { format!("R PANIC {}", LAST_PANIC.with(|p| p.borrow_mut().take()).unwrap_or_default()) }];
+                let mut out = if n.co_mode {
+                    n.co_start(Box::new(move |dbs: Arc<Databases>| { if dbs.is_eligible() { nundb::election_ops::start_election(&dbs); } "R ok".to_string() }))
+                } else {
+                    let r = std::panic::catch_unwind(std::panic::AssertUnwindSafe(|| { if dbs.is_eligible() { nundb::election_ops::start_election(&dbs); } }));
+                    vec![if r.is_ok() { "R ok".to_string() } else { format!("R PANIC {}", LAST_PANIC.with(|p| p.borrow_mut().take()).unwrap_or_default()) }]
+                };
                 out.extend(n.drain_all(None));
                 out.extend(n.dump_delta());
                 out
